@@ -774,6 +774,10 @@ func checkC15(p *Prog, r *Report) {
 		r.Unknown("ownership analysis", "", u)
 	}
 	_ = token.NoPos
+
+	// ---- R15.9 exhaustive clean-up / migration loops ----
+	r.Rule("R15.9", "The loops that must treat every element of a collection do so: no early exit, and no path through an iteration that skips the operation (removal, close and deadline propagation reach every packet / TCP connection).", 3)
+	checkForAllLoops(p, r, "C15")
 }
 
 func rootIdent(e ast.Expr) *ast.Ident {
